@@ -88,7 +88,7 @@ fn run_c14(line: &str) -> String {
             if let Some(m) = &r.malformed {
                 fail.get_or_insert(format!("malformed-request({})", m));
             }
-            if !r.resp.is_ack() {
+            if !r.resp.is_ack(r.grpc) {
                 fail.get_or_insert("collector-did-not-ack".into());
             }
             for rec in r.records.iter().flatten() {
